@@ -352,6 +352,17 @@ def _with_alarm(seconds, fn):
         signal.signal(signal.SIGALRM, old)
 
 
+def impl_cycle_hypotheses(w):
+    """The hypotheses of C06.accept_complete evaluated on the tables the implementation built (same format as the
+    driver's `w.cychyp`): shapes fit the depths, one cutoff for all connections."""
+    sims = sorted(w.sims.values(), key=lambda s: int(s.sid[1:]))
+    depth = {s: len(s.from_world_time.tiers) for s in sims}
+    shaped = all(d.pre_length == depth[src] and len(d.tiers) == depth[dst] for dst in sims for src, d in dst.input_delays.items())
+    cuts = [d.cutoff for dst in sims for d in dst.input_delays.values()]
+    const = all(c == (cuts[0] if cuts else 1) for c in cuts)
+    return f"shaped={str(shaped).lower()} nodup=true const={str(const).lower()}"
+
+
 def cycle_result(w):
     try:
         _with_alarm(5, w.ensure_no_dataflow_cycles)
@@ -491,6 +502,10 @@ def suite_cycles(rng: random.Random, tier: str) -> Suite:
             for orc in ("0", "3 2 1 5", "7 1 1 1 2 0 3 2"):
                 s.add(f"w.cyc {orc}", res if res != "cycle" else "cycle", "cyc:" + res)
             s.add("w.anc 0", anc_rows(w), "anc")
+            # the hypotheses of the completeness theorem hold for the tables connect() builds (shaped, dict), and the
+            # executable uniformity check says the same on both sides
+            hyp = impl_cycle_hypotheses(w)
+            s.add("w.cychyp", hyp, "hyp:" + ("theorem applies (exact_of_checks)" if hyp.endswith("const=true") else "Uniform not decided by the executable check"))
         finally:
             close_world(w)
     s.post_model = lambda a: "cycle" if a.startswith("cycle ") else a
